@@ -51,7 +51,7 @@ class FuncInfo:
         self.cls = cls
         self.outer = outer
         self.name = node.name if not isinstance(node, ast.Lambda) else f'<lambda:{node.lineno}>'
-        self.kind = 'function' if cls is None else 'method'
+        self.kind = 'function' if (cls is None or outer is not None) else 'method'
         self.decorators = []
         if not isinstance(node, ast.Lambda):
             for d in node.decorator_list:
